@@ -44,6 +44,7 @@ class Candidate(BaseException):
 
 
 CUR = None  # current Ctx
+STR_TABLE = {}  # token -> Sym (see Sym.__str__)
 
 
 def cur():
@@ -69,6 +70,7 @@ class Ctx(object):
         self.notes = []
         self.nfresh = 0
         self.unknown_feasibility = False
+        self._fixed = {}
 
     # -- variables ---------------------------------------------------------
     def _reg(self, name, c):
@@ -80,18 +82,19 @@ class Ctx(object):
     def int(self, name, lo=None, hi=None):
         c = self._reg(name, z3.Int(name))
         v = SymInt(c)
+        # bounds of a fresh variable are satisfiable by construction
         if lo is not None:
-            self.assume(c >= lo)
+            self.assume(c >= lo, check=False)
         if hi is not None:
-            self.assume(c <= hi)
+            self.assume(c <= hi, check=False)
         return v
 
     def real(self, name, lo=None, hi=None):
         c = self._reg(name, z3.Real(name))
         if lo is not None:
-            self.assume(c >= _rv(lo))
+            self.assume(c >= _rv(lo), check=False)
         if hi is not None:
-            self.assume(c <= _rv(hi))
+            self.assume(c <= _rv(hi), check=False)
         return SymReal(c)
 
     def bool(self, name):
@@ -112,7 +115,7 @@ class Ctx(object):
         self.queries += 1
         return str(r)
 
-    def assume(self, cond):
+    def assume(self, cond, check=True):
         cond = _b(cond)
         s = z3.simplify(cond)
         if z3.is_true(s):
@@ -121,6 +124,8 @@ class Ctx(object):
         self.pc.append(cond)
         if z3.is_false(s):
             raise PathAbort()
+        if not check:
+            return
         r = self._check()
         if r == 'unsat':
             raise PathAbort()
@@ -176,6 +181,9 @@ class Ctx(object):
         s = z3.simplify(e)
         if z3.is_int_value(s):
             return s.as_long()
+        key = e.get_id()
+        if key in self._fixed:
+            return self._fixed[key][1]
         while True:
             i = len(self.decisions)
             if i < len(self.prefix):
@@ -192,6 +200,7 @@ class Ctx(object):
                 v = v.as_long()
                 self._record(('v', v))
             if self.branch(e == v):
+                self._fixed[key] = (e, v)  # keeps e alive: ids stay unique
                 return v
 
     def model(self, extra=()):
@@ -340,13 +349,40 @@ def _is_float_like(x):
 class Sym(object):
     __slots__ = ('e',)
     # numpy: let our reflected operators win over numpy scalars
-    pass  # no __array_priority__: numpy must treat these as scalars
+    # no __array_priority__: numpy must treat these as scalars.
+    # numpy-scalar look-alike attributes (an object array hands out the bare
+    # element where a numeric array hands out a numpy scalar)
+    size = 1
+    shape = ()
+    ndim = 0
 
     def __init__(self, e):
         self.e = e
 
+    def item(self):
+        return self
+
+    def view(self, *a, **k):
+        return self
+
+    def take(self, i, axis=None):
+        return self
+
+    def ravel(self):
+        import numpy as np
+        a = np.empty(1, dtype=object)
+        a[0] = self
+        return a
+
     def __repr__(self):
         return '%s(%s)' % (type(self).__name__, z3.simplify(self.e))
+
+    def __str__(self):
+        # text round trip ('%s' % x ... eval(text)): a token that the twin's
+        # eval maps back to this object
+        tok = '_SYMTOK%d_' % len(STR_TABLE)
+        STR_TABLE[tok] = self
+        return tok
 
     def __hash__(self):
         return id(self)
